@@ -137,7 +137,8 @@ class Tmatrix(ScatteringTheory):
         thet0 = 0
         thet = angles[:, 0]
         phi0 = 0
-        phi = angles[:, 1]
+        # (any azimuth: the compiled code takes 0..360 only)
+        phi = angles[:, 1] % 360
         nang = angles.shape[0]
 
         args = [axi, rat, lam, mrr, mri, eps, NP, ndgs, alpha, beta,
